@@ -178,6 +178,13 @@ func runHarness(spec *HarnessSpec) (res *HarnessResult) {
 	}()
 	res.ExecS = time.Since(t1).Seconds()
 	if os.Getenv("GOSMT_VERBOSE") != "" {
+		if os.Getenv("GOSMT_DEBUGOBS") != "" {
+			for i, ob := range e.obligations {
+				if i < 40 {
+					fmt.Fprintf(os.Stderr, "[ob %d] %s %s @%s\n    %s\n", i, ob.Kind, ob.Label, ob.Pos, debugStr(ob.Cond, 6))
+				}
+			}
+		}
 		hist := map[string]int{}
 		for _, ob := range e.obligations {
 			hist[ob.Kind+": "+ob.Label+" @"+ob.Pos]++
@@ -395,10 +402,16 @@ func (e *Engine) solve(res *HarnessResult) {
 	res.Nodes = termSize(append(conds, e.assumptions...)...)
 
 	// prefix conjunctions P_k = a_0 AND ... AND a_{k-1}, built without flattening
+	// (group queries use the real assumptions only: unsat without the facts
+	// is unsat with them; anything else is split and re-decided)
 	prefix := make([]*Term, len(e.assumptions)+1)
 	prefix[0] = tTrue
 	for k, a := range e.assumptions {
-		prefix[k+1] = rawAnd(prefix[k], a)
+		if e.isFact[k] {
+			prefix[k+1] = prefix[k]
+		} else {
+			prefix[k+1] = rawAnd(prefix[k], a)
+		}
 	}
 	groupOf := func(obs []*Obligation) *Term {
 		var group []*Term
@@ -442,6 +455,17 @@ func (e *Engine) solve(res *HarnessResult) {
 			}
 			return
 		}
+		if depth == 0 && len(obs) > 48 {
+			// big harness: groups of 32 consecutive obligations
+			for i := 0; i < len(obs); i += 32 {
+				j := i + 32
+				if j > len(obs) {
+					j = len(obs)
+				}
+				groupRun(obs[i:j], 1)
+			}
+			return
+		}
 		wg.Add(1)
 		go func() {
 			defer wg.Done()
@@ -453,15 +477,10 @@ func (e *Engine) solve(res *HarnessResult) {
 				}
 				return
 			}
-			if len(obs) > 64 && depth == 0 {
-				q := (len(obs) + 3) / 4
-				for i := 0; i < len(obs); i += q {
-					j := i + q
-					if j > len(obs) {
-						j = len(obs)
-					}
-					groupRun(obs[i:j], depth+1)
-				}
+			if len(obs) > 8 {
+				h := len(obs) / 2
+				groupRun(obs[:h], depth+1)
+				groupRun(obs[h:], depth+1)
 				return
 			}
 			for _, ob := range obs {
